@@ -38,6 +38,12 @@ class WeightedGraph:
             self.E[i, j] = value
             self.incoming[j].add(i)
             self.outgoing[i].add(j)
+        elif (i, j) in self.E:
+            # an update that cancels to zero removes the edge (keeping the old,
+            # stale weight would make `G[i, j] += w` wrong for cancelling weights)
+            del self.E[i, j]
+            self.incoming[j].discard(i)
+            self.outgoing[i].discard(j)
         return self
 
     def closure(self):
